@@ -69,7 +69,7 @@ def default_galois_elts(n):
 
 
 def write_instance(wd, name, info, *, actions, ct_slots, pt_slots, max_steps, max_size, msgs, scales=(30,),
-                   steps=None, elts=None, keyset="default", view_values=False, invariants=True, emit=True, extra_defs=""):
+                   steps=None, elts=None, keyset="default", view_values=False, tag_msgs=False, invariants=True, emit=True, extra_defs=""):
     c = level_constants(info)
     n, t = info["n"], max(info["t"], 2)
     scheme = info["scheme"]
@@ -115,6 +115,7 @@ def write_instance(wd, name, info, *, actions, ct_slots, pt_slots, max_steps, ma
     cfg.append("  MaxSize = %d" % max_size)
     cfg.append("  KsBits = %d" % c["KsBits"])
     cfg.append("  SeedWords = 9")
+    cfg.append("  TagMsgs = %s" % ("TRUE" if tag_msgs else "FALSE"))
     for nm in ["QLow", "QHigh", "PBits", "QInvT", "Msgs", "HasKeyFor", "CtSlots", "PtSlots", "Scales", "Steps", "Elts"]:
         cfg.append("  %s <- MC_%s" % (nm, nm))
     cfg.append("VIEW MCView")
